@@ -110,6 +110,7 @@ def check_normalize(case, ctx):
     ctx.label("unclamped", d.get("unclamped", False))
     ctx.label("kind:" + d["kind"])
     ctx.label("op:" + case["op"])
+    RN = build.exact_from(d, N)          # only for the magnitude scale of each derivative (cancellation-aware tolerance)
     kinds_all = []
     for descs in case["params"]:
         # parameters correspond by knot index / span fraction; the 'other direction' class does not correspond
@@ -121,16 +122,21 @@ def check_normalize(case, ctx):
         b = Fo.evaluate_single(build.call_param(Fo, uF))
         ctx.check(_rel_eq(list(a), list(b)), "normalize-evaluate", "point at %r (normalised) = %r, at %r (original range) = %r" % (uN, a, uF, b))
         order = case["order"]
+        Mag = RN.derivatives(uN, order)[1] if pd < 3 else {}
+
+        def der_eq(a, b, key):
+            tol = 1e-8 * float(Mag[key])
+            return len(a) == len(b) and all(abs(x - y) <= tol for x, y in zip(a, b))
         if pd == 1:
             dn, df = N.derivatives(uN[0], order), Fo.derivatives(uF[0], order)
             for k in range(order + 1):
-                ctx.check(_rel_eq(list(dn[k]), [x * B[0] ** k for x in df[k]], 1e-8), "normalize-derivative",
+                ctx.check(der_eq(list(dn[k]), [x * B[0] ** k for x in df[k]], (k,)), "normalize-derivative",
                           "derivative %d: normalised %r, original range %r (scale %r)" % (k, dn[k], df[k], B[0] ** k))
         elif pd == 2:
             dn, df = N.derivatives(uN[0], uN[1], order), Fo.derivatives(uF[0], uF[1], order)
             for k in range(order + 1):
                 for l in range(order + 1 - k):
-                    ctx.check(_rel_eq(list(dn[k][l]), [x * B[0] ** k * B[1] ** l for x in df[k][l]], 1e-8), "normalize-derivative",
+                    ctx.check(der_eq(list(dn[k][l]), [x * B[0] ** k * B[1] ** l for x in df[k][l]], (k, l)), "normalize-derivative",
                               "derivative (%d,%d): normalised %r, original range %r" % (k, l, dn[k][l], df[k][l]))
     ctx.nt(any(k in ("knot", "end", "start") for k in kinds_all), "on-knot-or-end")
     n = case["n"]
